@@ -185,6 +185,25 @@ class Rec:
         return call
 
 
+class _Handler:
+    def __init__(self):
+        self.level = 10
+
+
+class WorldLogger:
+    """ per-world logger (level and handler levels are part of the snapshot: change_log_level overwrites them);
+    every logging method is a no-op """
+
+    def __init__(self):
+        self.level = 10
+        self.handlers = [_Handler()]
+
+    def __getattr__(self, name):
+        if name.startswith('__'):
+            raise AttributeError(name)
+        return lambda *args, **kwargs: None
+
+
 class FakeParser:
     """ the rules file of the fixture: appS and appR are Managed, appU is not """
 
@@ -236,6 +255,8 @@ class World:
         self.seq = 0
         self.alive = []
         sv = self.sv = svenv.make_supvisors()
+        # svenv may install a shared logger: the XML-RPC under test must see a logger owned by this world
+        object.__setattr__(sv, 'logger', WorldLogger())
         sv.options.synchro_options = ([SynchronizationOptions.USER] if user_sync
                                       else [SynchronizationOptions.TIMEOUT])
         sv.parser = FakeParser()
@@ -542,11 +563,13 @@ def run_cell(cell):
 
 
 # ---------------------------------------------------------------------------------------------------------------
-def requests_of(meth):
+def requests_of(meth, thorough=False):
     """ the parameter domain enumerated for one method.  Name-like parameters (application, namespec, instance,
     program, numprocs, level, regex, flag) are enumerated as a full product, crossed with {valid, unknown-string}
     strategies; the other strategy flavours and wait=False are combined with otherwise valid parameters.
-    get_inner_process_info: every instance kind x valid namespec, and every namespec x valid instance. """
+    get_inner_process_info: every instance kind x valid namespec, and every namespec x valid instance.
+    thorough: the full product of every parameter kind the method takes (all six strategy flavours, wait on/off,
+    every application x every namespec kind, every instance x every namespec). """
     sig = SIGNATURES[meth]
     base = dict(DEFAULT_REQ, meth=meth)
     if meth in ('restart_application', 'stop_application', 'restart_process', 'stop_process',
@@ -560,14 +583,14 @@ def requests_of(meth):
         nonlocal reqs
         reqs = [dict(r, **{field: v}) for r in reqs for v in values]
 
-    if meth == 'get_inner_process_info':
+    if meth == 'get_inner_process_info' and not thorough:
         reqs = ([dict(base, inst=i) for i in INSTS]
                 + [dict(base, app=a, proc=p) for a in APPS for p in PROCS])
         sig = ()
     procs = [p for p in PROCS if not (meth == 'get_local_process_info' and p == 'PrInt')]
     for kind in sig:
         if kind == 'strat':
-            expand('strat', STRATS if meth == 'conciliate' else ['StOk', 'StBadStr'])
+            expand('strat', STRATS if (thorough or meth == 'conciliate') else ['StOk', 'StBadStr'])
         elif kind == 'app':
             expand('app', APPS)
         elif kind == 'ns':
@@ -578,6 +601,8 @@ def requests_of(meth):
                 full.append((base['app'], 'PrInt'))
             short = [(base['app'], 'PrKnown'), ('ApUnknown', 'PrKnown'), (base['app'], 'PrUnknown'),
                      (base['app'], 'PrInt')]
+            if thorough:
+                full = short = [(a, p) for a in APPS for p in procs]
             reqs = [dict(r, app=a, proc=p) for r in reqs
                     for a, p in (short if r['strat'] == 'StBadStr' else full)]
         elif kind == 'regex':
@@ -592,6 +617,8 @@ def requests_of(meth):
             expand('level', LEVELS)
         elif kind == 'flag':
             expand('flag', [False, True])
+        elif kind == 'wait' and thorough:
+            expand('wait', [True, False])
     if 'strat' in sig and meth != 'conciliate':
         for st in ('StOkInt', 'StUser', 'StBadInt', 'StBadType'):
             reqs.append(dict(base, strat=st))
@@ -660,7 +687,7 @@ class RpcGateSuite(Suite):
         cells = []
         for meth in names:
             for view in views_of(meth):
-                for req in requests_of(meth):
+                for req in requests_of(meth, thorough=(tier == 'thorough')):
                     cells.append((view, req))
         t0 = time.perf_counter()
         results = _pool_run(cells)
@@ -714,3 +741,50 @@ class RpcGateSuite(Suite):
                 'points_set_directly (state, role, what)': sorted(DIRECT_POINTS) or
                 sorted({(v[0], v[1], d) for (v, _), o in zip(inputs, observeds) for d in o.get('direct', [])}),
                 'measure_seconds': round(getattr(self, 'measure_s', 0.0), 2)}
+
+
+# ---------------------------------------------------------------------------------------------------------------
+def replay_findings():
+    """ independent replays of the C17 findings on the real RPCInterface, without the worlds of this driver
+    (MockedSupvisors of the test-suite; run: PYTHONPATH=/repo /venv/bin/python harness/drv_rpc.py) """
+    from unittest.mock import Mock
+    from supervisor.xmlrpc import RPCError
+    from supvisors.rpcinterface import RPCInterface
+    from supvisors.statemachine import FiniteStateMachine
+    from supvisors.application import ApplicationStatus, ApplicationRules
+    from supvisors.ttypes import SupvisorsStates
+    sv = svenv.make_supvisors()
+    sv.starter, sv.stopper = Mock(), Mock()
+    rpc = RPCInterface(sv)
+
+    def attempt(label, f):
+        try:
+            print(label, '->', f())
+        except RPCError as e:
+            print(label, '-> RPCError', fault_name(e.code), e.text)
+        except Exception as e:
+            print(label, '-> EXCEPTION', type(e).__name__, e)
+
+    attempt("F20 get_instance_info('10.0.0.1')[0]['identifier']", lambda: rpc.get_instance_info('10.0.0.1')[0]['identifier'])
+    attempt("F20 get_network_info('10.0.0.1')", lambda: rpc.get_network_info('10.0.0.1'))
+    attempt("F20 get_network_info('supvisors_test')", lambda: rpc.get_network_info('supvisors_test'))
+    sv.fsm.state = SupvisorsStates.OPERATION
+    sv.context.applications['appU'] = ApplicationStatus('appU', ApplicationRules(sv), sv)   # not Managed
+    attempt("F19 start_application('CONFIG', 'appU')", lambda: rpc.start_application('CONFIG', 'appU'))
+    attempt("F19 stop_application('appU')", lambda: rpc.stop_application('appU'))
+    attempt("F19 restart_application('CONFIG', 'appU', False)", lambda: rpc.restart_application('CONFIG', 'appU', False))
+    print('     stopper calls:', [c[0] for c in sv.stopper.method_calls])
+    sv.rpc_handler = Mock()
+    sv.fsm = FiniteStateMachine(sv)
+    sv.state_modes.local_state_modes.state = SupvisorsStates.OPERATION
+    sv.state_modes.master_identifier = ''
+    attempt("F18 restart() in OPERATION, Master lost", rpc.restart)
+    attempt("F18 shutdown() in OPERATION, Master lost", rpc.shutdown)
+    sv.context.applications['appU'].processes['u1'] = Mock(namespec='appU:u1')
+    attempt("N1 start_args('appU:*', '')", lambda: rpc.start_args('appU:*', ''))
+    attempt("N2 start_any_process('CONFIG', '(')", lambda: rpc.start_any_process('CONFIG', '('))
+    attempt("N3 get_process_info(7)", lambda: rpc.get_process_info(7))
+
+
+if __name__ == '__main__':
+    replay_findings()
